@@ -16,6 +16,15 @@ and run-time decisions (scheduling, fault timing, model choice) are drawn from
 Tape(run_seed ^ SCHED_SALT).  A failing run is minimised (plan first, then the
 run-time tape) and written as a replay file; replaying re-executes exactly
 (plan, tape) and must reproduce the same violation signature.
+
+Process history.  The runs of one batch execute one after the other in one
+process (a child forked for that batch from a process that has executed
+nothing), so what run k observes is a function of the plans k0..k of its batch
+and of nothing else.  When a violation does not reproduce from its own
+(plan, tape) in a fresh interpreter, it depends on state that the code under
+test kept across *environments* in the process (class-level or module-level
+tables).  It is then replayed together with its predecessors of the batch
+(the "prelude"), the prelude is minimised, and the replay file carries it.
 """
 import faulthandler
 import gc
@@ -24,6 +33,7 @@ import importlib
 import json
 import multiprocessing
 import os
+import pickle
 import subprocess
 import sys
 import time
@@ -122,7 +132,50 @@ def generate(mod, run_seed, cfg):
     return mod.gen_plan(Tape(run_seed), cfg)
 
 
+def forked(fn, *args):
+    """run fn(*args) in a forked child and return its (pickled) result; the caller's process
+    executes nothing of it.  Raises RuntimeError if the child died."""
+    r, w = os.pipe()
+    sys.stdout.flush()
+    sys.stderr.flush()
+    child = os.fork()
+    if child == 0:
+        code = 1
+        try:
+            os.close(r)
+            res = fn(*args)
+            with os.fdopen(w, "wb") as f:
+                pickle.dump(res, f)
+            code = 0
+        except BaseException:
+            try:
+                traceback.print_exc()
+            except Exception:
+                pass
+        finally:
+            os._exit(code)
+    os.close(w)
+    chunks = []
+    with os.fdopen(r, "rb") as f:
+        while True:
+            b = f.read(1 << 16)
+            if not b:
+                break
+            chunks.append(b)
+    _, status = os.waitpid(child, 0)
+    if status != 0 or not chunks:
+        raise RuntimeError("forked child failed (wait status %d)" % status)
+    return pickle.loads(b"".join(chunks))
+
+
 def _worker(args):
+    try:
+        return forked(_batch, args)
+    except RuntimeError as e:
+        return {"err": "batch k0=%d: %s" % (args[2], e)}
+
+
+def _batch(args):
     pid, base, k0, k1, cfg, wall_cap = args
     import warnings
     warnings.simplefilter("ignore")
@@ -160,7 +213,7 @@ def _worker(args):
             agg["verdict_digest"].update(("V:" + r[1] + ";").encode())
             if len(agg["viol"]) < 4:
                 agg["viol"].append({"run_seed": rs, "sig": r[1], "msg": r[2],
-                                    "plan": plan, "tape": r[3]})
+                                    "plan": plan, "tape": r[3], "k": k, "k0": k0})
             else:
                 agg["viol"].append({"run_seed": rs, "sig": r[1], "msg": r[2]})
     faulthandler.cancel_dump_traceback_later()
@@ -170,6 +223,15 @@ def _worker(args):
 
 
 # ------------------------------------------------------------------ shrinking
+
+def run_prelude(mod, prelude):
+    """execute earlier runs of the process history; their own verdicts are not this run's business"""
+    for pr in prelude or []:
+        try:
+            run_once(mod, pr["plan"], Tape(pr["run_seed"] ^ SCHED_SALT))
+        except Exception:
+            pass
+
 
 def _same(mod, plan, tape, sig):
     try:
@@ -181,7 +243,57 @@ def _same(mod, plan, tape, sig):
     return None
 
 
-def shrink(mod, plan, tape, sig, budget_s=25.0, max_exec=1500):
+def _same_after(mod, prelude, plan, tape, sig):
+    run_prelude(mod, prelude)
+    return _same(mod, plan, tape, sig)
+
+
+def shrink_history(mod, prelude, plan, tape, sig, budget_s=60.0):
+    """minimise the prelude (which earlier runs are needed), every candidate in a forked child"""
+    t0 = time.time()
+    n_exec = [0]
+
+    def ok(pre):
+        if time.time() - t0 > budget_s:
+            return False
+        n_exec[0] += 1
+        try:
+            return forked(_same_after, mod, pre, plan, tape, sig) is not None
+        except RuntimeError:
+            return False
+
+    if not ok(prelude):
+        return None, n_exec[0]
+    size = max(1, len(prelude) // 2)
+    while size >= 1:
+        i = 0
+        while i < len(prelude):
+            cand = prelude[:i] + prelude[i + size:]
+            if ok(cand):
+                prelude = cand
+            else:
+                i += size
+        size //= 2
+    # the ops of the remaining prelude runs
+    for j in range(len(prelude)):
+        ops = prelude[j]["plan"].get("ops", [])
+        size = max(1, len(ops) // 2)
+        while size >= 1 and time.time() - t0 < budget_s:
+            i = 0
+            while i < len(prelude[j]["plan"]["ops"]):
+                cur = prelude[j]["plan"]["ops"]
+                cp = dict(prelude[j]["plan"])
+                cp["ops"] = cur[:i] + cur[i + size:]
+                cand = prelude[:j] + [dict(prelude[j], plan=cp)] + prelude[j + 1:]
+                if ok(cand):
+                    prelude = cand
+                else:
+                    i += size
+            size //= 2
+    return prelude, n_exec[0]
+
+
+def shrink(mod, plan, tape, sig, budget_s=25.0, max_exec=1500, prelude=None):
     import warnings
     warnings.simplefilter("ignore")
     t0 = time.time()
@@ -191,7 +303,11 @@ def shrink(mod, plan, tape, sig, budget_s=25.0, max_exec=1500):
         if time.time() - t0 > budget_s or n_exec[0] >= max_exec:
             return None
         n_exec[0] += 1
-        return _same(mod, p, t, sig)
+        # every candidate in its own forked child: a candidate must not see what earlier ones left behind
+        try:
+            return forked(_same_after, mod, prelude, p, t, sig)
+        except RuntimeError:
+            return None
 
     plan = json.loads(json.dumps(plan))
     improved = True
@@ -263,7 +379,7 @@ def known_open(pid):
 
 # ------------------------------------------------------------------ replay files
 
-def write_replay(pid, run_seed, plan, tape, sig, msg, note=""):
+def write_replay(pid, run_seed, plan, tape, sig, msg, note="", prelude=None):
     d = os.path.join(VERIF_DIR, "replays")
     os.makedirs(d, exist_ok=True)
     name = "%s-%s-%d.json" % (pid, hashlib.blake2b(sig.encode(), digest_size=4).hexdigest(), run_seed)
@@ -276,8 +392,18 @@ def write_replay(pid, run_seed, plan, tape, sig, msg, note=""):
         except Exception:
             decoded = None
     with open(path, "w") as f:
-        json.dump({"property": pid, "run_seed": run_seed, "violation": {"signature": sig, "message": msg},
-                   "plan": plan, "tape": tape, "decoded_ops": decoded, "note": note}, f, indent=1)
+        doc = {"property": pid, "run_seed": run_seed, "violation": {"signature": sig, "message": msg},
+               "plan": plan, "tape": tape, "decoded_ops": decoded, "note": note}
+        if prelude:
+            doc["prelude"] = prelude
+            doc["prelude_note"] = ("earlier runs of the same process, executed first (each from its plan and "
+                                   "Tape(run_seed ^ SCHED_SALT)): the violation depends on state kept across them")
+            if hasattr(mod, "describe"):
+                try:
+                    doc["decoded_prelude"] = [mod.describe(pr["plan"]) for pr in prelude]
+                except Exception:
+                    pass
+        json.dump(doc, f, indent=1)
     return path
 
 
@@ -287,6 +413,7 @@ def replay(pid, path, quiet=False):
     with open(path) as f:
         rp = json.load(f)
     mod = load(pid)
+    run_prelude(mod, rp.get("prelude"))
     r = run_once(mod, rp["plan"], rp["tape"])
     want = rp.get("violation", {}).get("signature")
     if r[0] == "viol":
@@ -426,14 +553,34 @@ def sweep(pid, tier, base_seed, runs=None, jobs=None, budget_s=None, write_evide
             continue
         if v is None:
             continue
-        plan, tape, n_exec = shrink(mod, v["plan"], v["tape"], sig,
-                                    budget_s=cfg.get("shrink_budget_s", 25.0))
+        def fresh_replay(path):
+            return subprocess.run([sys.executable, os.path.join(VERIF_DIR, "check"), pid, "--replay", path, "--quiet"],
+                                  capture_output=True, text=True, timeout=600)
+        # this process executes no plan itself: every minimisation candidate runs in a forked child
+        plan, tape, n_exec = shrink(mod, v["plan"], v["tape"], sig, budget_s=cfg.get("shrink_budget_s", 25.0))
         path = write_replay(pid, v["run_seed"], plan, tape, sig, v["msg"],
                             note="minimised with %d executions; %d runs of this sweep hit this signature"
                                  % (n_exec, len(vs)))
         # replay in a fresh interpreter must reproduce the same signature
-        rc = subprocess.run([sys.executable, os.path.join(VERIF_DIR, "check"), pid, "--replay", path, "--quiet"],
-                            capture_output=True, text=True, timeout=300)
+        rc = fresh_replay(path)
+        if "VIOLATION property=%s" % pid not in rc.stdout and "k0" in v:
+            # depends on the earlier runs of its batch (state kept across environments in the process)
+            prelude = []
+            for j in range(v["k0"], v["k"]):
+                rsj = run_seed_of(base_seed, j)
+                prelude.append({"run_seed": rsj, "plan": generate(mod, rsj, cfg)})
+            small, n1 = shrink_history(mod, prelude, v["plan"], v["tape"], sig,
+                                       budget_s=cfg.get("shrink_budget_s", 25.0) * 3)
+            if small is not None:
+                plan, tape, n2 = shrink(mod, v["plan"], v["tape"], sig, budget_s=cfg.get("shrink_budget_s", 25.0),
+                                        max_exec=300, prelude=small)
+                for pre, pl, tp in ((small, plan, tape), (small, v["plan"], v["tape"]), (prelude, v["plan"], v["tape"])):
+                    path = write_replay(pid, v["run_seed"], pl, tp, sig, v["msg"], prelude=pre,
+                                        note="depends on %d earlier run(s) of the same process; minimised with %d executions; "
+                                             "%d runs of this sweep hit this signature" % (len(pre), n1 + n2, len(vs)))
+                    rc = fresh_replay(path)
+                    if "VIOLATION property=%s" % pid in rc.stdout:
+                        break
         if "VIOLATION property=%s" % pid not in rc.stdout:
             # never report what cannot be replayed; keep looking at the other signatures
             print("HARNESS-WARNING property=%s signature %s: replay %s did not reproduce in a fresh process "
